@@ -654,8 +654,9 @@ def commit_own(prog, res, f, rule="R-WINDOW"):
                     objs.add(ir.ap(a["e"]))
     targets = [(f, {"*" + acc_p["n"], acc_p["n"] + "[0]"})] + ([(w, objs)] if len(objs) == 1 else [])
     for g, names in targets:
-        def nonnull(cn, lab, blk, names=names):
-            c0 = ir.strip(cn)
+        def nonnull(cn, lab, blk, names=names, g=g):
+            from .. import congr as _c
+            c0 = ir.strip(_c.resolve_at(prog, g, (blk.id, blk.cond if blk.cond is not None else len(blk.stmts)), cn))
             neg = False
             while isinstance(c0, dict) and c0.get("k") == "un" and c0.get("op") == "!":
                 neg = not neg
